@@ -15,6 +15,9 @@ CLAIMS = {
  "C06": ("Metamorphic search over the prefix lattice of generated streams: every prefix of every stream is evaluated through the public matching path; oracles are zero network reads, verdict repeatability, an unchanged stream for later readers, monotonicity of 'no', and 'whole message matches => no proper prefix is rejected'. Exhaustive over split points per stream, sampled over streams.",
          "A fresh Connection preloaded with the prefix (overlay export shim) stands for 'the bytes received so far'; the scripted underlying conn counts reads.",
          "property-based testing (rapid), metamorphic relation over all prefixes of each generated stream"),
+ "C02": ("Bounded-exhaustive enumeration of route lists x streams x segmentations x end modes plus rapid-generated larger instances, each decided by a validity predicate over the recorded handler trace (route matched on the bytes available, order, no decided-matching route skipped, nothing after a terminal route, fallback exactly once with the stream intact, no fall-through or abandonment while a route is undecided). The small scope is complete for its bounds; beyond it the search is sampled.",
+         "Harness matchers/handlers (pure functions of the available bytes; recording handlers) stand in for shipped ones so that the oracle can recompute verdicts; RouteList.Compile, the shipped `not` matcher and `subroute` handler are the code under test; virtual time for the matching deadline.",
+         "bounded-exhaustive enumeration + property-based testing (rapid); trace validity predicate"),
 }
 NOT_YET = "check not built yet in this session (planned, see DESIGN.md); not claimed until it is"
 
